@@ -507,17 +507,31 @@ def check_sites(ctx, prog, rule, prop, seen, config_label="", exclude_fn=None, o
                     n_dis += len(g["undischarged"])
                     g["unrolled"] = "%d site(s) discharged in the context of the callers (%s)" % (len(g["undischarged"]), why)
                     g["undischarged"] = []
+    spent = {}
     for (fnp, sk), g in sorted(groups.items()):
         und = g["undischarged"]
         total = len(g["sites"])
         b = g["fn"]
         be = budget.get((fnp, sk))
+        bkey = (fnp, sk)
+        if be is None and und:
+            # a non-public helper that a refactoring split off a budgeted function shares that function's reviewed entry:
+            # the sites moved with the code, the total stays bounded by the same reviewed count
+            from ..absint import owning_functions, _known_functions
+            if _known_functions() and fnp not in _known_functions() and not b.is_public:
+                owners = owning_functions(prog, b)
+                if len(owners) == 1:
+                    o = next(iter(owners))
+                    if budget.get((o, sk)) is not None:
+                        be, bkey = budget.get((o, sk)), (o, sk)
         allowed = be["max"] if be is not None and (not be.get("props") or prop in be["props"]) else 0
+        allowed = max(0, allowed - spent.get(bkey, 0))
         if allowed and und and any(sk.startswith(k) for k in COVERED_BY_PREMISE.get((be.get("requires"), fnp), ())):
             allowed = max(allowed, len(und))
         if be is not None:
-            used.add((fnp, sk))
+            used.add(bkey)
         n_bud += min(len(und), allowed)
+        spent[bkey] = spent.get(bkey, 0) + min(len(und), allowed)
         if be is not None and und and allowed and be.get("requires"):
             required.add(be["requires"])
         ok = len(und) <= allowed
